@@ -347,8 +347,8 @@ func genHistory(r *rng.R, scatter bool) history {
 	var h history
 	o := gen10.GenOpt{RulesPct: 30, TiFlashPct: 12, MinStores: 3, MaxStores: 8, HealthyBias: 55, ExactPeers: true}
 	h.Spec = gen10.Generate(r, o)
-	if scatter && h.Spec.Cfg.MaxReplicas > 4 {
-		h.Spec.Cfg.MaxReplicas = 3 + r.Intn(2) // keep the number of processing orders small
+	if scatter && h.Spec.Cfg.MaxReplicas > 4 && r.Pct(50) {
+		h.Spec.Cfg.MaxReplicas = 3 + r.Intn(2) // five ordinary peers = 120 processing orders per call: half of the time
 	}
 	if !scatter {
 		for i := range h.Spec.Stores {
@@ -527,6 +527,15 @@ func labelsOf(tc *mockcluster.Cluster) string {
 func coqOp(region *core.RegionInfo, op *operator.Operator) (string, *sim10.Trace) {
 	tr := sim10.Run(region, op)
 	return fmt.Sprintf("(Some (ImplOp %s %s))", sim10.CoqSteps(tr.Steps), sim10.CoqState(tr.Final())), tr
+}
+
+// wrap08 adds the region and the steps in C08's vocabulary (for C08's verified plan checker, model/C11_Plan.v)
+func wrap08(coqCase string, region *core.RegionInfo, tr *sim10.Trace) string {
+	steps := "[]"
+	if tr != nil {
+		steps = sim10.Coq08Steps(tr.Steps)
+	}
+	return fmt.Sprintf("(Case08 %s\n   %s\n   %s)", coqCase, sim10.Coq08Region(region), steps)
 }
 
 // hookCluster is the mock cluster plus a hook called, on the calling goroutine, whenever the scatterer asks for the stores
@@ -771,9 +780,11 @@ func runHistory(h history, emit emitFn, hidx int) []string {
 			var viol []res.Violation
 			summary := "no operator"
 			lastFinal = nil
+			var scTr *sim10.Trace
 			if op != nil {
 				var tr *sim10.Trace
 				opS, tr = coqOp(region, op)
+				scTr = tr
 				viol = append(anomalies(tr, sim10.Summary(op)), goMonitor("scatter", region, tr, sim10.Summary(op))...)
 				f := tr.Final()
 				lastFinal, lastRegion = &f, a.Region
@@ -785,7 +796,7 @@ func runHistory(h history, emit emitFn, hidx int) []string {
 			}
 			log = append(log, fmt.Sprintf("scatter region %d %v group %q -> %s", region.GetID(), sim10.StoresOf(sim10.FromRegion(region)), a.Group, summary))
 			so := fmt.Sprintf("(Some (ScatterObs %d %s [%s] %v %s))", groupIDs[a.Group], before, strings.Join(guard, "; "), !rules, after)
-			coq := fmt.Sprintf("(Case SScatter\n   %s\n   %s %s\n   %s\n   %s)", stores, labels, coqRegion(region), opS, so)
+			coq := wrap08(fmt.Sprintf("(Case SScatter\n   %s\n   %s %s\n   %s\n   %s)", stores, labels, coqRegion(region), opS, so), region, scTr)
 			emit(coq, coq, true, tags, viol)
 		case "conc":
 			rs := runConcurrent(hc, sc, regions, a.Conc, a.Groups, a.Seed)
@@ -800,7 +811,7 @@ func runHistory(h history, emit emitFn, hidx int) []string {
 					continue
 				}
 				opS, tr := coqOp(region, cr.op)
-				coq := fmt.Sprintf("(Case SScatterConc\n   %s\n   %s %s\n   %s\n   None)", stores, labels, coqRegion(region), opS)
+				coq := wrap08(fmt.Sprintf("(Case SScatterConc\n   %s\n   %s %s\n   %s\n   None)", stores, labels, coqRegion(region), opS), region, tr)
 				log = append(log, fmt.Sprintf("concurrent scatter (seed %d) region %d %v -> %s", a.Seed, region.GetID(), sim10.StoresOf(sim10.FromRegion(region)), sim10.Summary(cr.op)))
 				emit(coq, coq, true, []string{"conc:operator"}, append(anomalies(tr, sim10.Summary(cr.op)), goMonitor("scatter-concurrent", region, tr, sim10.Summary(cr.op))...))
 			}
@@ -874,7 +885,7 @@ func runHistory(h history, emit emitFn, hidx int) []string {
 					}
 					got++
 					opS, tr := coqOp(region, op)
-					coq := fmt.Sprintf("(Case %s\n   %s\n   %s %s\n   %s\n   None)", coqSched(op.Desc(), a.Sched), caseStores, labels, coqRegion(region), opS)
+					coq := wrap08(fmt.Sprintf("(Case %s\n   %s\n   %s %s\n   %s\n   None)", coqSched(op.Desc(), a.Sched), caseStores, labels, coqRegion(region), opS), region, tr)
 					log = append(log, fmt.Sprintf("schedule %s %v -> region %d: %s", a.Sched, a.Args, region.GetID(), sim10.Summary(op)))
 					emit(coq, coq, true, []string{"sched:" + a.Sched + ":operator", "op:" + op.Desc()}, append(anomalies(tr, sim10.Summary(op)), goMonitor(a.Sched, region, tr, sim10.Summary(op))...))
 				}
@@ -912,9 +923,9 @@ func main() {
 		"non-trivial = every emitted case (a Scatter call that was accepted, or a returned operator); refused calls and empty schedules are " +
 		"counted in the histogram only; distinct by sha256 of the Coq term"
 	cf := &coqfmt.CaseFile{Dir: *out, Prefix: "C11", PerFile: 60,
-		Header: "From PDV Require Import lib.C10_Cluster model.C11_Scatter.\nLocal Open Scope string_scope.\nLocal Open Scope Z_scope.\n",
-		Type:   "case",
-		Footer: "Definition M := Eval vm_compute in map fst (mismatches cases).\nDefinition D := Eval vm_compute in hd_error (mismatches cases).\nDefinition V := Eval vm_compute in monitor_fails cases.\nPrint M. Print D. Print V.\n"}
+		Header: "From PDV Require Import lib.C10_Cluster model.C11_Scatter model.C11_Plan.\nFrom PDV Require model.C08_Steps.\nLocal Open Scope string_scope.\nLocal Open Scope Z_scope.\n",
+		Type:   "case08",
+		Footer: "Definition M := Eval vm_compute in map fst (mismatches08 cases).\nDefinition D := Eval vm_compute in hd_error (mismatches08 cases).\nDefinition V := Eval vm_compute in monitor_fails08 cases.\nPrint M. Print D. Print V.\n"}
 	type rec struct {
 		History history
 		Case    int // index of the case within the history
